@@ -349,7 +349,9 @@ pub fn jacc_cases(r: &mut Rng, exhaustive_len: usize, random_n: usize) -> Vec<Ca
         let mut ops = vec![];
         for n in [31usize, 32, 33, 34, 40, 63, 64, 65, 70] {
             let big = wide(n);
-            for small in [vec![big[n - 1]], vec![big[n - 1], big[0]], big[n - 5..].to_vec(), vec![big[n / 2], big[n - 1], 'a'], big[1..n.min(33)].to_vec()] {
+            let absent = |i: usize| char::from_u32(0x100 + 3 * i as u32 + 1).unwrap_or('a');
+            for small in [vec![big[n - 1]], vec![big[n - 1], big[0]], big[n - 5..].to_vec(), vec![big[n / 2], big[n - 1], 'a'], big[1..n.min(33)].to_vec(),
+                          vec![absent(3), big[4]], vec![absent(n - 2), big[n - 1]], vec![big[0], absent(n / 2), big[n / 2 + 1]], vec![absent(0), big[1], absent(5), big[6]]] {
                 ops.push(Op::Jacc(big.clone(), small.clone()));
                 ops.push(Op::Jacc(small.clone(), big.clone()));
             }
@@ -403,6 +405,27 @@ pub fn dist_cases(r: &mut Rng, exhaustive_len: usize, random_n: usize) -> Vec<Ca
         for (i, ch) in ops.chunks(1500).enumerate() {
             cases.push(Case { name: format!("dista-{}", i), lang: "none".to_string(), stream: "dist-exhaustive-aliasing", ops: ch.to_vec() });
         }
+    }
+    // scalars on either side of block / encoding boundaries (a dense table or a narrowed key sized by such a boundary
+    // is one slot short exactly there)
+    {
+        let bsyms: Vec<char> = ['\u{7f}', '\u{80}', '\u{ff}', '\u{100}', '\u{4ff}', '\u{500}', '\u{7ff}', '\u{800}', '\u{ffff}', '\u{10000}', '\u{10ffff}', 'a'].to_vec();
+        let mut ops = vec![];
+        for a in &bsyms { for b in &bsyms { for c in ['a', *a] {
+            let (w1, w2) = (vec![*a, 'x', *b], vec![*b, c, 'x']);
+            ops.push(Op::Dist(w1.clone(), vec![0; 3], w2.clone(), vec![0; 3]));
+        } } }
+        cases.push(Case { name: "distb".to_string(), lang: "none".to_string(), stream: "dist-boundary-scalars", ops });
+    }
+    // very long words (matrix dimensions beyond 256 and back to short words)
+    {
+        let mut ops = vec![];
+        let w = |r: &mut Rng, n: usize| -> Vec<char> { (0..n).map(|_| DSYMS[r.below(4)].0).collect() };
+        for (la, lb) in [(3usize, 4usize), (175, 180), (5, 5), (180, 175), (260, 6), (6, 6), (90, 260), (4, 3)] {
+            let (a, b) = (w(r, la), w(r, lb));
+            ops.push(Op::Dist(a.clone(), cls(&a), b.clone(), cls(&b)));
+        }
+        cases.push(Case { name: "distvl".to_string(), lang: "none".to_string(), stream: "dist-very-long", ops });
     }
     // long / short alternation, growth beyond the initial capacity, shuffled call order
     let mut ops = vec![];
@@ -662,10 +685,11 @@ pub fn relatives_case(code: &str, v: &Vocab, r: &mut Rng, name: String) -> Case 
 
 /// one record whose title shares more than 256 distinct grams with the query that types it verbatim (counters,
 /// candidate selection and match vectors far beyond their everyday sizes), next to two ordinary records
-pub fn long_title_case(code: &str, v: &Vocab, r: &mut Rng, name: String) -> Case {
+pub fn long_title_case(code: &str, v: &Vocab, r: &mut Rng, name: String, shape: usize) -> Case {
     // either few long words or many (34–45) short ones
-    let many = r.chance(1, 2);
-    let nwords = if many { r.range(34, 45) } else { r.range(17, 22) };
+    // shape 0: few long words; 1: 34–45 short words; 2: 66–130 short words
+    let many = shape > 0;
+    let nwords = match shape { 2 => r.range(66, 130), 1 => r.range(34, 45), _ => r.range(17, 22) };
     let title: String = (0..nwords).map(|_| { let l = if many { r.range(6, 9) } else { r.range(14, 18) }; (0..l).map(|_| *r.pick(&v.letters)).collect::<String>() }).collect::<Vec<_>>().join(" ");
     let mut ops = vec![Op::New, Op::Limit(10), Op::Add(1, 5, v.title(r)), Op::Add(2, 9, title.clone()), Op::Add(3, 7, v.title(r))];
     ops.push(Op::Search(title.clone()));
@@ -674,7 +698,7 @@ pub fn long_title_case(code: &str, v: &Vocab, r: &mut Rng, name: String) -> Case
     ops.push(Op::Search(half));
     // single words of the long title, early and late ones
     let words: Vec<&str> = title.split(' ').collect();
-    for k in [0usize, 31, 32, words.len() - 1] { if k < words.len() { ops.push(Op::Search(words[k].to_string())); } }
+    for k in [0usize, 31, 32, 63, 64, 65, words.len() - 1] { if k < words.len() { ops.push(Op::Search(words[k].to_string())); } }
     ops.push(Op::Search(String::new()));
     Case { name, lang: code.to_string(), stream: "F-store-long-title", ops }
 }
@@ -728,7 +752,9 @@ pub fn repeated_words_case(code: &str, v: &Vocab, r: &mut Rng, name: String) -> 
 pub fn store_cases(code: &str, r: &mut Rng, n: usize) -> Vec<Case> {
     let v = vocab(code);
     let mut cases = vec![];
-    cases.push(long_title_case(code, &v, r, format!("long-title-{}", code)));
+    let li = LANGS.iter().position(|l| *l == code).unwrap_or(0);
+    cases.push(long_title_case(code, &v, r, format!("long-title-{}", code), li % 3));
+    cases.push(long_title_case(code, &v, r, format!("long-title2-{}", code), (li + 1) % 3));
     cases.push(repeated_words_case(code, &v, r, format!("repeated-{}", code)));
     for i in 0..n {
         if i % 2 == 0 { cases.push(typing_case(code, &v, r, format!("typing-{}-{}", code, i))); }
